@@ -18,10 +18,10 @@ package process
 //@ ghost indepOneLeft types.SessionType
 //@ ghost indepOneRight types.SessionType
 
-//@ macro typedName(n Name) bool = n.Type != nil && base(modeOf(n.Type))
+//@ macro typedName(n Name) bool = n.Type != nil && shapeOK(n.Type) && base(modeOf(n.Type))
 
 //@ contract declationOfIndependenceOne
-//@   requires[C09] typedName(left) && rightType != nil && base(modeOf(rightType))
+//@   requires[C09] typedName(left) && rightType != nil && shapeOK(rightType) && base(modeOf(rightType))
 //@   ensures C06.doiOne: (result == nil) == ge(modeOf(left.Type), modeOf(rightType))
 //@   emits indepOneOK = (result == nil)
 //@   emits indepOneLeft = left.Type
@@ -29,7 +29,7 @@ package process
 //@   safety C09
 
 //@ contract declationOfIndependence
-//@   requires[C09] succedentType != nil && base(modeOf(succedentType))
+//@   requires[C09] succedentType != nil && shapeOK(succedentType) && base(modeOf(succedentType))
 //@   requires[C09] forall k int :: 0 <= k && k < len(antecedents) ==> typedName(antecedents[k])
 //@   ensures C06.doi: (result == nil) == (forall k int :: 0 <= k && k < len(antecedents) ==> ge(modeOf(antecedents[k].Type), modeOf(succedentType)))
 //@   loop 1 invariant (forall k int :: 0 <= k && k <= idx ==> ge(modeOf(antecedents[k].Type), modeOf(succedentType)))
